@@ -43,30 +43,7 @@ func (c *Ctx) gatedShapeRules(prefix string) {
 	// --- scan
 	{
 		rule := prefix + ".scan"
-		calls := callsTo(scan, isOpen)
-		if len(calls) != 1 {
-			r.Bad(rule, "processExpiredEvents:open", p.Pos(scan.Pos()), fmt.Sprintf("%d openGate calls in the expiry scan (expected 1, in the loop)", len(calls)))
-		} else {
-			oc := calls[0]
-			full, why := c.fullLoop(oc, true)
-			r.Check(full, rule, "processExpiredEvents:loop", p.InstrPos(oc), "the scan visits every list element; exits: exhausted or error return", "the expiry scan does not visit every element: "+why)
-			// the gate opened is the loop element's value; guarded by Now().After(ge.exp)
-			ge := tb.Of(oc.Common().Args[2])
-			okGe := ge.Op == "Assert" && strings.HasSuffix(ge.Name, "gatedEvent") && ge.Args[0].Is("Field", "Value")
-			cond, tsucc, _ := condOf(oc.Block().Idom())
-			okCond := false
-			if cond != nil {
-				ct := tb.Of(cond)
-				if ct.Op == "Call" && ct.Name == "(time.Time).After" && len(ct.Args) == 2 &&
-					ct.Args[0].Op == "Call" && ct.Args[0].Name == "(*filters/gated.Filter).Now" &&
-					ct.Args[1].Is("Field", "exp") && ct.Args[1].Args[0].V == ge.V && (tsucc == oc.Block() || tsucc.Dominates(oc.Block())) {
-					okCond = true
-				}
-			}
-			r.Check(okGe && okCond, rule, "processExpiredEvents:expired-branch", p.InstrPos(oc), "openGate(ctx, element value) exactly when w.Now().After(ge.exp)", "the gate is not opened exactly for elements with w.Now().After(ge.exp): gate="+ge.String())
-			// every return inside the loop region is an error return
-			c.errorFlowRule(rule, scan, nil, false)
-		}
+		c.ruleExpiryScanAs(rule)
 		// same clock for the stamp: Process stamps with (*Filter).Now().Add(Expiration)
 		stamped := false
 		eachInstr(proc, func(in ssa.Instruction) {
@@ -368,7 +345,7 @@ func (c *Ctx) gatedContainerRules(prefix string) {
 
 func runC11(c *Ctx) {
 	p, r := c.P, c.R
-	r.Explanation = "Decides the structural clauses of C11 on gated.Filter: all gate state (gated, orderedGated, composeFrom, Expiration, the groups' event slices) is accessed under Filter.l held for writing (pairwise lock-set discipline, including the unexported helpers' entry lock sets); insertions into the id map are paired with PushBack and removals from the map with list.Remove, both deferred before composition so they run on error too; in Process the incoming event is appended to its id's group before the flush test, composition receives exactly that group's slice, non-flush returns (nil,nil) and flush returns a fresh event built from composition's results; openGate sends only a payload proven not Gateable, with composition's type and payload unchanged; non-Gateable events are returned untouched before any lock, empty ids rejected; list iteration is safe (shared with C17). Exactly-once over long histories as such is not decided. C11.reset / C11.discard / C11.insert / C11.listops: whole-container resets only without a Broker; unsent removal only for composition failure, Gateable composite or no Broker; a group is opened only when the id has none; nothing reorders the list."
+	r.Explanation = "Decides the structural clauses of C11 on gated.Filter: all gate state (gated, orderedGated, composeFrom, Expiration, the groups' event slices) is accessed under Filter.l held for writing (pairwise lock-set discipline, including the unexported helpers' entry lock sets); insertions into the id map are paired with PushBack and removals from the map with list.Remove, both deferred before composition so they run on error too; in Process the incoming event is appended to its id's group before the flush test, composition receives exactly that group's slice, non-flush returns (nil,nil) and flush returns a fresh event built from composition's results; openGate sends only a payload proven not Gateable, with composition's type and payload unchanged; non-Gateable events are returned untouched before any lock, empty ids rejected; list iteration is safe (shared with C17). Exactly-once over long histories as such is not decided. C11.reset / C11.discard / C11.insert / C11.listops: whole-container resets only without a Broker; unsent removal only for composition failure, Gateable composite or no Broker; a group is opened only when the id has none; nothing reorders the list. C11.expiry: the expiry scan visits every withheld group and opens exactly the expired ones."
 	r.NotDecided = []string{"exactly-once delivery over arbitrary long histories (the rules are its per-step obligations)", "behaviour of user ComposeFrom implementations"}
 	c.lockControls()
 	c.errControls()
@@ -389,6 +366,7 @@ func runC11(c *Ctx) {
 	c.ruleGatedNoGate("C11.nogate")
 	c.ruleGatedPass("C11.pass")
 	c.ruleGatedPassOnly("C11.pass")
+	c.ruleExpiryScanAs("C11.expiry")
 	ni := 0
 	for _, f := range p.FuncsIn(PkgGated) {
 		ni += c.listIterRule("C11.iter", f, false)
@@ -525,4 +503,42 @@ func isEmptyContainer(v ssa.Value) bool {
 		return calleeName(&x.Call) == "container/list.New"
 	}
 	return false
+}
+
+// ruleExpiryScanAs: the expiry scan visits EVERY withheld group and opens exactly those whose stamp has passed
+// (C17.scan; also C11.expiry — "when the group expires the composite is sent": the list is in arrival order, not in
+// expiry order, so a scan that stops at the first unexpired group leaves expired ones behind it withheld).
+func (c *Ctx) ruleExpiryScanAs(rule string) {
+	p, r := c.P, c.R
+	tb := p.NewTerms(nil)
+	scan := c.Fn(rule, PkgGated, "Filter", "processExpiredEvents")
+	open := c.Fn(rule, PkgGated, "Filter", "openGate")
+	if scan == nil || open == nil {
+		return
+	}
+	isOpen := func(n string, cc *ssa.CallCommon) bool { return cc.StaticCallee() == open }
+	calls := callsTo(scan, isOpen)
+	if len(calls) != 1 {
+		r.Bad(rule, "processExpiredEvents:open", p.Pos(scan.Pos()), fmt.Sprintf("%d openGate calls in the expiry scan (expected 1, in the loop)", len(calls)))
+	} else {
+		oc := calls[0]
+		full, why := c.fullLoop(oc, true)
+		r.Check(full, rule, "processExpiredEvents:loop", p.InstrPos(oc), "the scan visits every list element; exits: exhausted or error return", "the expiry scan does not visit every element: "+why)
+		// the gate opened is the loop element's value; guarded by Now().After(ge.exp)
+		ge := tb.Of(oc.Common().Args[2])
+		okGe := ge.Op == "Assert" && strings.HasSuffix(ge.Name, "gatedEvent") && ge.Args[0].Is("Field", "Value")
+		cond, tsucc, _ := condOf(oc.Block().Idom())
+		okCond := false
+		if cond != nil {
+			ct := tb.Of(cond)
+			if ct.Op == "Call" && ct.Name == "(time.Time).After" && len(ct.Args) == 2 &&
+				ct.Args[0].Op == "Call" && ct.Args[0].Name == "(*filters/gated.Filter).Now" &&
+				ct.Args[1].Is("Field", "exp") && ct.Args[1].Args[0].V == ge.V && (tsucc == oc.Block() || tsucc.Dominates(oc.Block())) {
+				okCond = true
+			}
+		}
+		r.Check(okGe && okCond, rule, "processExpiredEvents:expired-branch", p.InstrPos(oc), "openGate(ctx, element value) exactly when w.Now().After(ge.exp)", "the gate is not opened exactly for elements with w.Now().After(ge.exp): gate="+ge.String())
+		// every return inside the loop region is an error return
+		c.errorFlowRule(rule, scan, nil, false)
+	}
 }
